@@ -23,6 +23,7 @@ type FG struct {
 	panics  []int
 	defers  []int
 	rundef  []int
+	corr    []ssa.Value // boolean SSA values tested by more than one If (see corr.go)
 }
 
 type Edge struct{ from, to int }
@@ -76,6 +77,9 @@ func (w *World) FG(fn *ssa.Function) *FG {
 // reach returns the set of nodes reachable from starts (inclusive) without entering
 // avoided nodes and without crossing cut edges.
 func (g *FG) reach(starts []int, avoid []bool, cut map[Edge]bool) []bool {
+	if g.corrInit(); len(g.corr) > 0 {
+		return g.reachCorr(starts, avoid, cut)
+	}
 	seen := make([]bool, len(g.ins))
 	var stack []int
 	for _, s := range starts {
